@@ -216,6 +216,78 @@ Proof.
   rewrite Est. apply (fwd_fails p h _ Hwh Bd Hk (9 + y)).
 Qed.
 
+(* ---- a property / global variable without initialiser: `T name ;` ---- *)
+Definition var_value (v : value) (n : chars) : value := VNode "Variable" [(["ctype"%string], v); (["name"%string], VStr (string_of n))].
+
+Lemma variable_ok : forall F0 toks v n, parses F0 toks v -> is_ident n = true ->
+  forall f p R, F0 <= f ->
+  exists p', interp g (8 + f) (GRef "Variable") {| pk := p; rest := render toks (sp n (sp semi R)) |}
+             = Match [([], var_value v n)] {| pk := p'; rest := R |}.
+Proof.
+  intros F0 toks v n Hp Hn f p R Hf. cbn [Nat.add]. rule "Variable"%string.
+  rewrite i_and, seq_cons, i_and, seq_cons, i_and, seq_cons, i_name.
+  destruct (Hp (3 + f) p (sp n (sp semi R)) (follow_ident n _ Hn) ltac:(lia)) as [p1 E1]. cbn [Nat.add] in E1. unfold TY in E1.
+  rewrite E1. cbn [map add_name fst snd app]. rewrite ?seq_cons, i_name.
+  assert (Bl : boundary (sp semi R)) by (right; eexists; reflexivity).
+  destruct (IDENT_ok (1 + f) p1 n (sp semi R) Hn Bl) as [p2 E2]. cbn [Nat.add] in E2. unfold IDENT in E2. rewrite E2.
+  cbn [map add_name fst snd app]. rewrite ?seq_nil. cbn [app]. rewrite ?seq_cons, i_name, i_opt, i_and, ?seq_cons, i_sup.
+  rewrite (lit1_other _ p2 "="%char ";"%char [] R eq_refl eq_refl). cbn [map app]. rewrite ?seq_nil. cbn [app].
+  rewrite ?seq_cons, i_sup.
+  destruct (lit1_at (Sn 4 f) p2 ";"%char R eq_refl) as [p3 E3]. cbn [Sn] in E3. change (sp [";"%char] R) with (sp semi R) in E3.
+  rewrite E3, ?seq_nil. cbn [app]. exists p3. reflexivity.
+Qed.
+
+Lemma b_decl_var : forall k v n t, b_type v = Ok t ->
+  b_decl (S k) (var_value v n) = Ok (DVar {| v_ty := t; v_name := string_of n; v_default := None |}).
+Proof.
+  intros k v n t H. unfold var_value. cbn [b_decl].
+  repeat match goal with |- context [String.eqb ?a ?b] =>
+    let x := eval vm_compute in (String.eqb a b) in change (String.eqb a b) with x end.
+  cbv iota. unfold b_var, name_of, b_default.
+  change (first_named "ctype" [(["ctype"%string], v); (["name"%string], VStr (string_of n))]) with (Some v).
+  change (first_named "name" [(["ctype"%string], v); (["name"%string], VStr (string_of n))]) with (Some (VStr (string_of n))).
+  change (named "default" [(["ctype"%string], v); (["name"%string], VStr (string_of n))]) with (@nil value).
+  cbv iota. rewrite H. reflexivity.
+Qed.
+
+Definition var_toks (t : ty) (name : string) : list chars := ty_toks t ++ [chars_of name; semi].
+Definition wf_var (t : ty) (name : string) : Prop :=
+  wf_ty t /\ depth t < depth_fuel /\ head_ok t /\ is_ident (chars_of name) = true.
+
+Lemma content_step_var : forall t name, wf_var t name -> forall p R f, fuel_of t + 25 <= f ->
+  exists v p', interp g f OR7 {| pk := p; rest := render (var_toks t name) R |} = Match [([], v)] {| pk := p'; rest := R |}
+               /\ forall k, b_decl (S k) v = Ok (DVar {| v_ty := t; v_name := name; v_default := None |}).
+Proof.
+  intros t name [Hw [Hd [Hh Hn]]] p R f Hf.
+  assert (X : exists y, f = Sn 7 (18 + y) /\ fuel_of t <= y) by (exists (f - 25); cbn [Sn]; lia).
+  destruct X as [y [Ef Hy]]. subst f. cbn [Sn].
+  assert (HP : parses (fuel_of t) (ty_toks t) (ty_value t)) by (apply (ty_parses (S (depth t))); [apply Nat.lt_succ_diag_r | exact Hw]).
+  unfold var_toks. rewrite render_app. change (render [chars_of name; semi] R) with (sp (chars_of name) (sp semi R)).
+  destruct (variable_ok (fuel_of t) (ty_toks t) (ty_value t) (chars_of name) HP Hn (15 + y) p R ltac:(lia)) as [p' E].
+  exists (var_value (ty_value t) (chars_of name)), p'. split.
+  2:{ intros k. rewrite <- (string_chars name) at 2. apply b_decl_var. unfold b_type. apply (ty_rebuilt depth_fuel t Hd Hw). }
+  pose proof (head_ok_wf_head t Hh) as Hwh0.
+  destruct Hh as [h [rest' [Eh [Hwh Hk0]]]]. destruct (not_other h Hk0) as [Hk Hns].
+  set (TAIL := sp (chars_of name) (sp semi R)) in *.
+  assert (Est : render (ty_toks t) TAIL = sp h (render rest' TAIL)) by (rewrite Eh; reflexivity).
+  assert (Bd : boundary (render rest' TAIL)) by (apply render_boundary; right; eexists; reflexivity).
+  unfold OR7. apply or2_l.
+  2:{ rewrite Est. apply (namespace_fails p h _ Hwh Bd (Sn 6 (11 + y)) Hns). }
+  unfold OR6. rewrite or2_r; [exact E|].
+  unfold OR5. rewrite or2_r; [rewrite Est; apply (enum_fails p h _ Hwh Bd Hk (12 + y))|].
+  unfold OR4. rewrite or2_r.
+  { unfold TAIL. apply (function_fails (fuel_of t) (ty_toks t) (ty_value t) (chars_of name) ";"%char [] R HP).
+    - destruct Hwh0 as [h0 [r0 [E0 [W0 [P0 T0]]]]]. exists h0, r0. split; [exact E0 | split; [exact W0 | split; [exact P0 | exact T0]]].
+    - exact Hn.
+    - reflexivity.
+    - reflexivity.
+    - lia. }
+  unfold OR3. rewrite or2_r; [rewrite Est; apply (typedef_fails p h _ Hwh Bd Hk (14 + y))|].
+  unfold OR2. rewrite or2_r; [rewrite Est; apply (class_fails p h _ Hwh Bd Hk (1 + y))|].
+  unfold OR1. rewrite or2_r; [rewrite Est; apply (include_fails p h _ Hwh Bd Hk (12 + y))|].
+  rewrite Est. apply (fwd_fails p h _ Hwh Bd Hk (9 + y)).
+Qed.
+
 (* ---- where a run of declarations stops: at the end of the text, or at the closing brace of a namespace ---- *)
 Definition lbrace : chars := ["{"%char].
 Definition rbrace : chars := ["}"%char].
@@ -400,26 +472,34 @@ Qed.
 (* ---- declaration trees: functions inside namespaces nested to any depth ---- *)
 Inductive item : Type :=
 | IFn (x : fn)
+| IVar (t : ty) (name : string)
 | INs (name : string) (body : list item).
 
 Fixpoint itoks (i : item) : list chars :=
   match i with
   | IFn x => toks_of x
+  | IVar t n => var_toks t n
   | INs n b => [knamespace; chars_of n; lbrace] ++ flat_map itoks b ++ [rbrace]
   end.
 Definition items_toks (l : list item) : list chars := flat_map itoks l.
 Fixpoint idecl (i : item) : decl :=
-  match i with IFn x => decl_of x | INs n b => DNamespace n (map idecl b) end.
+  match i with
+  | IFn x => decl_of x
+  | IVar t n => DVar {| v_ty := t; v_name := n; v_default := None |}
+  | INs n b => DNamespace n (map idecl b)
+  end.
 Fixpoint idepth (i : item) : nat :=
-  match i with IFn _ => 0 | INs _ b => S (fold_right (fun x acc => Nat.max (idepth x) acc) 0 b) end.
+  match i with IFn _ => 0 | IVar _ _ => 0 | INs _ b => S (fold_right (fun x acc => Nat.max (idepth x) acc) 0 b) end.
 Fixpoint wf_item (i : item) : Prop :=
   match i with
   | IFn x => wf_fn x
+  | IVar t n => wf_var t n
   | INs n b => is_ident (chars_of n) = true /\ (fix all (l : list item) : Prop := match l with [] => True | x :: r => wf_item x /\ all r end) b
   end.
 Fixpoint need (i : item) : nat :=
   match i with
   | IFn x => fuel_fn x + 25
+  | IVar t _ => fuel_of t + 25
   | INs _ b => 37 + length b + fold_right (fun x acc => need x + acc) 0 b
   end.
 Definition needs (l : list item) : nat := 31 + length l + fold_right (fun x acc => need x + acc) 0 l.
@@ -467,8 +547,10 @@ Proof.
       set (REST := render (items_toks items) R) in *.
       assert (Step : exists v p1, interp g F OR7 {| pk := p; rest := render (itoks i) REST |} = Match [([], v)] {| pk := p1; rest := REST |}
                                   /\ forall bf, S n <= bf -> b_decl bf v = Ok (idecl i)).
-      { destruct i as [x|nm b].
+      { destruct i as [x|t nm|nm b].
         - cbn [wf_item itoks idecl need] in *. destruct (content_step x Hwi p REST F ltac:(lia)) as [v [p1 [E B]]].
+          exists v, p1. split; [exact E|]. intros bf Hbf. destruct bf as [|bf]; [lia|]. apply B.
+        - cbn [wf_item itoks idecl need] in *. destruct (content_step_var t nm Hwi p REST F ltac:(lia)) as [v [p1 [E B]]].
           exists v, p1. split; [exact E|]. intros bf Hbf. destruct bf as [|bf]; [lia|]. apply B.
         - cbn [wf_item itoks idecl need idepth] in *. destruct Hwi as [Hnm Hall].
           assert (Hb : forall j, In j b -> idepth j < n /\ wf_item j).
@@ -631,8 +713,11 @@ Qed.
 
 Lemma item_facts : forall n i, idepth i < n -> wf_item i -> Forall tok_ok (itoks i) /\ need i + 1 <= 32 * length (itoks i).
 Proof.
-  induction n as [|n IH]; intros i Hd Hw; [lia|]. destruct i as [x|nm b].
+  induction n as [|n IH]; intros i Hd Hw; [lia|]. destruct i as [x|t nm|nm b].
   - cbn [wf_item itoks need] in *. destruct (fn_facts x Hw) as [F1 [F2 F3]]. split; [exact F1 | lia].
+  - cbn [wf_item itoks need] in *. destruct Hw as [Hw [Hdt [_ Hn]]]. destruct (ty_facts _ _ Hdt Hw) as [T1 T2]. unfold var_toks. split.
+    + apply Forall_app. split; [exact T1|]. constructor; [apply ident_tok; exact Hn | tok_lit].
+    + rewrite app_length. cbn [length]. lia.
   - cbn [wf_item itoks need idepth] in *. destruct Hw as [Hnm Hall].
     assert (Hb : forall j, In j b -> Forall tok_ok (itoks j) /\ need j + 1 <= 32 * length (itoks j)).
     { intros j Hj. apply IH; [pose proof (idepth_ge b j Hj); lia | apply (wf_items_all b Hall j Hj)]. }
